@@ -13,6 +13,7 @@ from ..evalx import Sym, Unknown
 from ..index import ClassInfo
 from ..report import Registry, sub
 from ._helpers_rules_a import str_constants
+from ._helpers_rob_c1 import bind_call_args, feasible_reachable, inline_locals, returned_values
 
 R = Registry(
     "C07",
@@ -274,36 +275,68 @@ def r2(ctx):
              "operator; the IN coercion stamps expand_op; every empty-set call site passes parameter.expand_op")
 def r3(ctx):
     ix = ctx.index
+    # every BinaryExpression that _negate can return, read independently of its shape: locals bound once are
+    # inlined (`negated_op = self.negate`), `return self.<helper>(...)` is followed, keyword / positional
+    # arguments are mapped onto the constructor's parameters
     f = ctx.func(f"{ELEM}::BinaryExpression._negate")
-    ctor = [c for c in calls_in(f.node) if (call_name(c) or "") == "BinaryExpression"]
+    init = ctx.func(f"{ELEM}::BinaryExpression.__init__")
+    iparams = [p for p in init.params if p != "self"]
+    ctx.require({"left", "right", "operator", "negate"} <= set(iparams), "BinaryExpression.__init__ lost left/right/operator/negate")
+    ctor = [v for v in returned_values(ix, f.cls, f.node, depth=2)
+            if isinstance(v, ast.Call) and (call_name(v) or "") == "BinaryExpression"]
     ctx.require(ctor, "BinaryExpression._negate does not construct a BinaryExpression")
-    c = ctor[0]
     problems = []
-    right = c.args[1] if len(c.args) > 1 else None
-    if not (isinstance(right, ast.Call) and dotted(right.func) == "self.right._negate_in_binary"):
-        problems.append(f"right operand is `{unparse(right)}`; it does not pass through self.right._negate_in_binary()")
-    else:
-        a = [unparse(x) for x in right.args]
-        if a != ["self.negate", "self.operator"]:
-            problems.append(f"_negate_in_binary is called with ({', '.join(a)}), expected (self.negate, self.operator)")
-    if len(c.args) < 3 or unparse(c.args[2]) != "self.negate":
-        problems.append("the negated expression's operator is not self.negate")
-    kw = {k.arg: unparse(k.value) for k in c.keywords}
-    if kw.get("negate") != "self.operator":
-        problems.append("the negated expression's negate is not self.operator")
-    if len(c.args) < 1 or unparse(c.args[0]) != "self.left":
-        problems.append("left operand is not self.left")
+    for c in ctor:
+        b = bind_call_args(c, iparams)
+        ctx.require(b is not None, "BinaryExpression._negate builds its result with */** arguments (unknown idiom)")
+        right = b.get("right")
+        if not (isinstance(right, ast.Call) and dotted(right.func) == "self.right._negate_in_binary"):
+            problems.append(f"right operand is `{unparse(right) if right is not None else None}`; it does not pass through self.right._negate_in_binary()")
+        else:
+            hb = bind_call_args(right, ["negated_op", "original_op"])
+            a = [unparse(hb[k]) if hb and k in hb else "?" for k in ("negated_op", "original_op")]
+            if a != ["self.negate", "self.operator"]:
+                problems.append(f"_negate_in_binary is called with ({', '.join(a)}), expected (self.negate, self.operator)")
+        got = {k: unparse(v) for k, v in b.items()}
+        if got.get("operator") != "self.negate":
+            problems.append("the negated expression's operator is not self.negate")
+        if got.get("negate") != "self.operator":
+            problems.append("the negated expression's negate is not self.operator")
+        if got.get("left") != "self.left":
+            problems.append("left operand is not self.left")
     ctx.check(not problems, f.key, "; ".join(problems), "right._negate_in_binary(self.negate, self.operator)", f.loc)
 
+    # BindParameter._negate_in_binary, read on the CFG under the two outcomes of `self.expand_op is original_op`
+    # (spelled as an if/else, its inversion, an early return, `==`, or through a local alias)
     f = ctx.func(f"{ELEM}::BindParameter._negate_in_binary")
     p_neg, p_orig = f.params[1], f.params[2]
     problems = []
-    pm = f.module.parents()
+    g = ctx.cfg(f)
     clones = {n.targets[0].id for n in walk_local(f.node)
               if isinstance(n, ast.Assign) and len(n.targets) == 1 and isinstance(n.targets[0], ast.Name)
               and isinstance(n.value, ast.Call) and dotted(n.value.func) in ("self._clone", "ClauseElement._clone")}
     stores = [n for n in walk_local(f.node) if isinstance(n, ast.Assign) and len(n.targets) == 1
               and isinstance(n.targets[0], ast.Attribute) and n.targets[0].attr == "expand_op"]
+
+    def tri_same(t, same: bool):
+        """Truth of a test when `self.expand_op is <original>` is `same`."""
+        if isinstance(t, ast.UnaryOp) and isinstance(t.op, ast.Not):
+            v = tri_same(t.operand, same)
+            return None if v is None else not v
+        if isinstance(t, ast.BoolOp):
+            vals = [tri_same(v, same) for v in t.values]
+            if isinstance(t.op, ast.And):
+                return False if False in vals else (True if all(v is True for v in vals) else None)
+            return True if True in vals else (False if all(v is False for v in vals) else None)
+        if isinstance(t, ast.Compare) and len(t.ops) == 1 and isinstance(t.ops[0], (ast.Is, ast.IsNot, ast.Eq, ast.NotEq)):
+            sides = {unparse(t.left), unparse(t.comparators[0])}
+            if sides == {"self.expand_op", p_orig}:
+                return same == isinstance(t.ops[0], (ast.Is, ast.Eq))
+        return None
+
+    live_same = feasible_reachable(g, lambda t: tri_same(inline_locals(f.node, t), True))
+    live_other = feasible_reachable(g, lambda t: tri_same(inline_locals(f.node, t), False))
+    ctx.require(live_same != live_other, f"{f.key}: no branch on `self.expand_op is {p_orig}` found (unknown idiom)")
     if len(stores) != 1:
         problems.append(f"{len(stores)} stores to expand_op (expected one)")
     else:
@@ -311,16 +344,20 @@ def r3(ctx):
         tgt = st.targets[0].value
         if not (isinstance(tgt, ast.Name) and tgt.id in clones):
             problems.append(f"expand_op is stored on `{unparse(tgt)}`, which is not a fresh clone (the cached original would flip)")
-        if not (isinstance(st.value, ast.Name) and st.value.id == p_neg):
+        val = inline_locals(f.node, st.value)
+        if not (isinstance(val, ast.Name) and val.id == p_neg):
             problems.append(f"expand_op is set to `{unparse(st.value)}` instead of the negated operator `{p_neg}`")
-        atoms = guard_atoms(lexical_guards(pm, st, stop=f.node))
-        if (f"self.expand_op is {p_orig}", True) not in atoms:
+        st_nodes = set(g.nodes_for(st))
+        if (st_nodes & live_other) or not (st_nodes & live_same):
             problems.append(f"the flip is not guarded by `self.expand_op is {p_orig}`")
         rets = returns_of(f.node)
-        g_ret = [r for r in rets if (f"self.expand_op is {p_orig}", True) in guard_atoms(lexical_guards(pm, r, stop=f.node))]
-        if not (g_ret and all(isinstance(r.value, ast.Name) and r.value.id in clones for r in g_ret)):
+        g_ret = [r for r in rets if set(g.nodes_for(r)) & live_same]
+        before_flip = feasible_reachable(g, lambda t: tri_same(inline_locals(f.node, t), True), avoid=st_nodes)
+        if not (g_ret and all(isinstance(r.value, ast.Name) and r.value.id in clones for r in g_ret)
+                and isinstance(tgt, ast.Name) and all(r.value.id == tgt.id for r in g_ret)
+                and not any(set(g.nodes_for(r)) & before_flip for r in g_ret)):
             problems.append("the flipped clone is not what is returned")
-        others = [r for r in rets if r not in g_ret]
+        others = [r for r in rets if set(g.nodes_for(r)) & live_other]
         if not (others and all(isinstance(r.value, ast.Name) and r.value.id == "self" for r in others)):
             problems.append("a parameter with a different expand_op is not returned unchanged")
     ctx.check(not problems, f.key, "; ".join(problems), "clone.expand_op = negated_op iff expand_op is original_op", f.loc)
@@ -363,7 +400,8 @@ def r3(ctx):
             for c in calls_named(fn.node, "visit_empty_set_op_expr"):
                 n_sites += 1
                 ctx.functions_analysed.add(fn.key)
-                arg = c.args[1] if len(c.args) > 1 else None
+                arg = c.args[1] if len(c.args) > 1 else next((k.value for k in c.keywords if k.arg == "expand_op"), None)
+                arg = inline_locals(fn.node, arg) if arg is not None else None
                 ok = isinstance(arg, ast.Attribute) and arg.attr == "expand_op"
                 ctx.check(ok, f"{fn.key}:call#{n_sites}",
                           f"`{unparse(c)[:80]}` does not pass the parameter's expand_op", unparse(arg) if arg else "",
@@ -1023,8 +1061,8 @@ R.mutant("r3-flip-on-self", ELEM,
              "            self.expand_op = negated_op\n            return self\n"), "C07-R3")
 R.mutant("r3-flip-to-original", ELEM, sub("            bind.expand_op = negated_op\n", "            bind.expand_op = original_op\n"), "C07-R3")
 R.mutant("r3-callsite-drops-expand-op", COMP,
-         sub("                ) + self.visit_empty_set_op_expr(\n                    parameter.type.types, parameter.expand_op\n",
-             "                ) + self.visit_empty_set_op_expr(\n                    parameter.type.types, None\n"), "C07-R3")
+         sub("                replacement_expression = self.visit_empty_set_op_expr(\n                    [parameter.type], parameter.expand_op\n",
+             "                replacement_expression = self.visit_empty_set_op_expr(\n                    [parameter.type], None\n", count=2), "C07-R3")
 # benign
 R.mutant("benign-rename-clone", ELEM,
          sub("            bind = self._clone()\n            bind.expand_op = negated_op\n            return bind\n",
@@ -1074,9 +1112,13 @@ R.mutant("benign-r4-list-copy-and-alias", COMP,
 R.mutant("benign-r4-unrelated-filtered-comprehension", COMP,
          sub("        if self._numeric_binds:\n            bind_template = self.compilation_bindtemplate\n",
              "        _known = [k for k in self.binds if k]\n        if self._numeric_binds:\n            bind_template = self.compilation_bindtemplate\n"), None)
-R.mutant("benign-r4-empty-tuple-arm-aligned-with-bound-path", COMP,
-         sub("                replacement_expression = (\n                    \"VALUES \" if self.dialect.tuple_in_values else \"\"\n                ) + self.visit_empty_set_op_expr(\n                    parameter.type.types, parameter.expand_op\n                )",
-             "                replacement_expression = self.visit_empty_set_op_expr(\n                    parameter.type.types, parameter.expand_op\n                )"), None)
+# (the former preview of fix 1351bd4 is now the tree; its inverse is the defect)
+R.mutant("r4-literal-empty-tuple-arm-prefixed-with-values", COMP,
+         sub("            # expressions to render.\n\n            if typ_dialect_impl._is_tuple_type:\n"
+             "                replacement_expression = self.visit_empty_set_op_expr(\n                    parameter.type.types, parameter.expand_op\n                )",
+             "            # expressions to render.\n\n            if typ_dialect_impl._is_tuple_type:\n"
+             "                replacement_expression = (\n                    \"VALUES \" if self.dialect.tuple_in_values else \"\"\n"
+             "                ) + self.visit_empty_set_op_expr(\n                    parameter.type.types, parameter.expand_op\n                )"), "C07-R4")
 # ---- R5 (seed C07/2 and its class)
 _SCALAR_REG = "                    else:\n                        new_processors.update(\n                            (key, single_processors[name])\n                            for key, _ in to_update\n                            if name in single_processors\n                        )\n"
 R.mutant("r5-seed2-hoisted-lookup-uses-escaped-name", COMP,
@@ -1092,9 +1134,10 @@ R.mutant("r5-scalar-registration-under-raw-key", COMP,
 R.mutant("benign-r5-hoisted-lookup-by-raw-name", COMP,
          sub(_SCALAR_REG, "                    elif name in single_processors:\n                        processor = single_processors[name]\n"
                           "                        new_processors.update(\n                            (key, processor) for key, _ in to_update\n                        )\n"), None)
-R.mutant("benign-r5-tuple-keys-from-escaped-name", COMP,
-         sub("                                \"%s_%s_%s\" % (name, i, j),\n                                tuple_processors[name][j - 1],",
-             "                                \"%s_%s_%s\" % (escaped_name, i, j),\n                                tuple_processors[name][j - 1],"), None)
+# (the former preview of fix b4dfd66 is now the tree; its inverse is the defect)
+R.mutant("r5-tuple-registration-under-raw-key", COMP,
+         sub("                                \"%s_%s_%s\" % (escaped_name, i, j),\n                                tuple_processors[name][j - 1],",
+             "                                \"%s_%s_%s\" % (name, i, j),\n                                tuple_processors[name][j - 1],"), "C07-R5")
 # ---- R6
 R.mutant("r6-conflict-check-disabled", COMP,
          sub("        if name in self.binds:\n            existing = self.binds[name]\n            if existing is not bindparam:",
@@ -1106,3 +1149,106 @@ R.mutant("benign-r6-expanded-names-checked", COMP,
          sub("                if not parameter.literal_execute:\n                    parameters.update(to_update)\n",
              "                if not parameter.literal_execute:\n                    for _k, _ in to_update:\n                        if _k in self.binds and _k != name:\n"
              "                            raise exc.CompileError(\"expanded name %r conflicts\" % (_k,))\n                    parameters.update(to_update)\n"), None)
+
+# ---- robustify round (rob-C1): R3 reads _negate / _negate_in_binary independently of their shape
+_NEG = """        if self.negate is not None:
+            return BinaryExpression(
+                self.left,
+                self.right._negate_in_binary(self.negate, self.operator),
+                self.negate,
+                negate=self.operator,
+                type_=self.type,
+                modifiers=self.modifiers,
+            )
+        else:
+            return self.self_group()._negate()
+"""
+_NEG_ALIAS = """        negated_op = self.negate
+        if negated_op is None:
+            return self.self_group()._negate()
+
+        original_op = self.operator
+        return BinaryExpression(
+            self.left,
+            self.right._negate_in_binary(%s),
+            negated_op,
+            negate=original_op,
+            type_=self.type,
+            modifiers=self.modifiers,
+        )
+"""
+R.mutant("benign-r3-negate-aliases-inverted-if", ELEM, sub(_NEG, _NEG_ALIAS % "negated_op, original_op"), None)
+R.mutant("r3-negate-aliases-hook-arguments-swapped", ELEM, sub(_NEG, _NEG_ALIAS % "original_op, negated_op"), "C07-R3")
+R.mutant("benign-r3-negate-right-operand-local-keywords", ELEM, sub(_NEG, """        if self.negate is None:
+            return self.self_group()._negate()
+        flipped_right = self.right._negate_in_binary(
+            negated_op=self.negate, original_op=self.operator
+        )
+        return BinaryExpression(
+            left=self.left,
+            right=flipped_right,
+            operator=self.negate,
+            negate=self.operator,
+            type_=self.type,
+            modifiers=self.modifiers,
+        )
+"""), None)
+R.mutant("benign-r3-negate-extracted-helper", ELEM, sub(_NEG, """        if self.negate is not None:
+            return self._negated_with(self.negate, self.operator)
+        else:
+            return self.self_group()._negate()
+
+    def _negated_with(self, new_op, old_op):
+        return BinaryExpression(
+            self.left,
+            self.right._negate_in_binary(new_op, old_op),
+            new_op,
+            negate=old_op,
+            type_=self.type,
+            modifiers=self.modifiers,
+        )
+"""), None)
+R.mutant("r3-negate-extracted-helper-keeps-right", ELEM, sub(_NEG, """        if self.negate is not None:
+            return self._negated_with(self.negate, self.operator)
+        else:
+            return self.self_group()._negate()
+
+    def _negated_with(self, new_op, old_op):
+        return BinaryExpression(
+            self.left,
+            self.right,
+            new_op,
+            negate=old_op,
+            type_=self.type,
+            modifiers=self.modifiers,
+        )
+"""), "C07-R3")
+_NIB = ("        if self.expand_op is original_op:\n            bind = self._clone()\n            bind.expand_op = negated_op\n"
+        "            return bind\n        else:\n            return self\n")
+R.mutant("benign-r3-flip-early-return-alias", ELEM, sub(_NIB, """        current = self.expand_op
+        if current is not original_op:
+            return self
+        bind = self._clone()
+        bind.expand_op = negated_op
+        return bind
+"""), None)
+R.mutant("r3-flip-early-return-test-inverted", ELEM, sub(_NIB, """        current = self.expand_op
+        if current is original_op:
+            return self
+        bind = self._clone()
+        bind.expand_op = negated_op
+        return bind
+"""), "C07-R3")
+R.mutant("r3-flip-after-return-path", ELEM, sub(_NIB, """        if self.expand_op is not original_op:
+            return self
+        bind = self._clone()
+        if bind.literal_execute:
+            return bind
+        bind.expand_op = negated_op
+        return bind
+"""), "C07-R3")
+R.mutant("benign-r3-callsite-expand-op-local", COMP,
+         sub("        if not values:\n            to_update = []\n            if typ_dialect_impl._is_tuple_type:\n"
+             "                replacement_expression = self.visit_empty_set_op_expr(\n                    parameter.type.types, parameter.expand_op\n                )",
+             "        if not values:\n            to_update = []\n            in_or_not_in = parameter.expand_op\n            if typ_dialect_impl._is_tuple_type:\n"
+             "                replacement_expression = self.visit_empty_set_op_expr(\n                    parameter.type.types, in_or_not_in\n                )"), None)
